@@ -57,6 +57,9 @@ type Case struct {
 	Readers [][]Op    `json:"readers"`
 	Procs   int       `json:"procs"`
 	Repeat  int       `json:"repeat"`
+	// Background: this many further items are stored before the goroutines start and never touched by them (searches
+	// then evaluate hundreds of distances and take long enough for a caller's context to end in the middle)
+	Background int `json:"background,omitempty"`
 }
 
 func genCase(t *rapid.T) Case {
@@ -74,6 +77,13 @@ func genCase(t *rapid.T) Case {
 	if single && nr == 0 {
 		nr = 2
 	}
+	if rapid.IntRange(0, 9).Draw(t, "bg") == 0 {
+		c.Background = rapid.IntRange(70, 110).Draw(t, "background")
+	}
+	ks := []int{1, 2, 5, 20}
+	if c.Background > 0 {
+		ks = []int{1, 5, 20, 100, 100} // wide beams: a search then evaluates most of the stored items
+	}
 	wop := rapid.Custom(func(t *rapid.T) Op {
 		kinds := []int{OInsert, OInsert, OInsert, ORemove, ORemove, OGet, OLen, OSearch, OYield}
 		if single {
@@ -81,11 +91,11 @@ func genCase(t *rapid.T) Case {
 			kinds = append(kinds, OReload)
 		}
 		k := rapid.SampledFrom(kinds).Draw(t, "k")
-		return Op{K: k, Id: rapid.IntRange(0, c.NIds-1).Draw(t, "id"), Q: rapid.IntRange(0, 7).Draw(t, "q"), KK: rapid.SampledFrom([]int{1, 2, 5, 20}).Draw(t, "kk"), L: gen.Level().Draw(t, "l")}
+		return Op{K: k, Id: rapid.IntRange(0, c.NIds-1).Draw(t, "id"), Q: rapid.IntRange(0, 7).Draw(t, "q"), KK: rapid.SampledFrom(ks).Draw(t, "kk"), L: gen.Level().Draw(t, "l")}
 	})
 	rop := rapid.Custom(func(t *rapid.T) Op {
 		k := rapid.SampledFrom([]int{OGet, OLen, OSearch, OSearch, OSearch, OYield}).Draw(t, "k")
-		o := Op{K: k, Id: rapid.IntRange(0, c.NIds-1).Draw(t, "id"), Q: rapid.IntRange(0, 7).Draw(t, "q"), KK: rapid.SampledFrom([]int{1, 2, 5, 20}).Draw(t, "kk")}
+		o := Op{K: k, Id: rapid.IntRange(0, c.NIds-1).Draw(t, "id"), Q: rapid.IntRange(0, 7).Draw(t, "q"), KK: rapid.SampledFrom(ks).Draw(t, "kk")}
 		if k == OSearch && rapid.IntRange(0, 3).Draw(t, "gives-up") == 0 {
 			o.Cancel = rapid.SampledFrom([]int{1, 1, 2, 5, 10, 30, 100}).Draw(t, "cancel")
 		}
@@ -235,6 +245,8 @@ func newRaceReports(name string, from int64) []string {
 
 const pinnedId = 90 // pool index of the pinned entry point (never touched by programs)
 
+const backgroundId = 1000 // pool index of the first background item
+
 func runProgram(c Case, pin bool, o *pbt.Obs) *pbt.Failure {
 	idx := idxsm.NewIndex(c.Cfg)
 	sp := idxsm.NewSpace(c.Cfg.Metric)
@@ -247,6 +259,19 @@ func runProgram(c Case, pin bool, o *pbt.Obs) *pbt.Failure {
 		if err := idx.Insert(gen.ID(pinnedId+3), amath.Vector(vecOf(pinnedId+1, 0)), nil, 7); err != nil {
 			panic(err)
 		}
+	}
+	for i := 0; i < c.Background; i++ {
+		if err := idx.Insert(gen.ID(backgroundId+i), amath.Vector(vecOf(200+i, i%7)), nil, i%3); err != nil {
+			panic(err)
+		}
+	}
+	isBackground := func(id uuid.UUID) (int, bool) {
+		for i := 0; i < c.Background; i++ {
+			if gen.ID(backgroundId+i) == id {
+				return i, true
+			}
+		}
+		return 0, false
 	}
 	var clock int64
 	tick := func() int64 { return atomic.AddInt64(&clock, 1) }
@@ -450,6 +475,12 @@ func runProgram(c Case, pin bool, o *pbt.Obs) *pbt.Failure {
 			if pin && (r.Id == gen.ID(pinnedId+2) || r.Id == gen.ID(pinnedId+3)) {
 				continue // the pinned items are always live
 			}
+			if bi, ok := isBackground(r.Id); ok {
+				if sp.Distance(query(e.op.Q), vecOf(200+bi, bi%7)) != r.Score {
+					return pbt.Failf("C13:search-wrong-score", "search returned background item %d with score %g", bi, r.Score)
+				}
+				continue // the background items are always live
+			}
 			if id < 0 {
 				return pbt.Failf("C13:search-unknown-id", "search returned id %s which was never inserted", gen.IDHex(r.Id))
 			}
@@ -499,6 +530,13 @@ func runProgram(c Case, pin bool, o *pbt.Obs) *pbt.Failure {
 		if v, err := idx.Get(gen.ID(k + 2)); err == nil {
 			final[gen.ID(k+2)] = &idxsm.Item{Vec: append([]float32(nil), v...)}
 		}
+	}
+	for i := 0; i < c.Background; i++ {
+		v, err := idx.Get(gen.ID(backgroundId + i))
+		if err != nil {
+			return pbt.Failf("C13:background-item-lost", "background item %d, which no goroutine touched, is gone: %v", i, err)
+		}
+		final[gen.ID(backgroundId+i)] = &idxsm.Item{Vec: append([]float32(nil), v...)}
 	}
 	if l := idx.Len(); l != len(final) {
 		return pbt.Failf("C13:len-after-quiescence", "Len()=%d, %d ids are retrievable", l, len(final))
@@ -552,7 +590,38 @@ func runProgram(c Case, pin bool, o *pbt.Obs) *pbt.Failure {
 			return f
 		}
 	}
-	return nil
+	// (8) nothing was left behind: one goroutine can still take every item out again (every removal takes the edge
+	// locks of the item's neighbours: a lock that an abandoned operation never released blocks it for good)
+	drained := make(chan *pbt.Failure, 1)
+	go func() {
+		for _, id := range idxsm.SortedIds(final) {
+			if err := idx.Remove(id); err != nil {
+				drained <- pbt.Failf("C13:drain-error", "after quiescence Remove of the stored item %s returned %v", gen.IDHex(id), err)
+				return
+			}
+		}
+		if l := idx.Len(); l != 0 {
+			drained <- pbt.Failf("C13:len-after-quiescence", "Len()=%d after every stored item was removed", l)
+			return
+		}
+		drained <- nil
+	}()
+	select {
+	case f := <-drained:
+		return f
+	case <-time.After(10 * time.Second):
+		buf := make([]byte, 1<<20)
+		buf = buf[:runtime.Stack(buf, true)]
+		for _, g := range strings.Split(string(buf), "\n\n") {
+			if strings.Contains(g, "c13.runProgram.func") && strings.Contains(g, "/repo/index/") && (strings.Contains(g, "[semacquire") || strings.Contains(g, "[sync.") || strings.Contains(g, "RWMutex")) {
+				if m := raceFrame.FindStringSubmatch(g); m != nil {
+					return pbt.Failf("C13:deadlock", "after quiescence a single goroutine removing the stored items one by one has been blocked for 10 s inside the index at %s: a lock was never released", strings.TrimPrefix(m[1], "/repo/"))
+				}
+			}
+		}
+		o.Inconclusive("drain-timeout-without-index-frames")
+		return nil
+	}
 }
 
 func check(c Case, o *pbt.Obs) *pbt.Failure {
@@ -640,7 +709,7 @@ func check(c Case, o *pbt.Obs) *pbt.Failure {
 func TestConcurrentIndex(t *testing.T) {
 	pbt.Run(t, pbt.Prop[Case]{
 		ID: "C13", Name: "TestConcurrentIndex",
-		Rule: "rapid-generated concurrent programs on a fresh index.Hnsw (race-detector build): 1 writer (two thirds of the cases) or 2-6 writers plus 0-6 readers, each a list of 4-40 Insert/Remove/Get/Len/Search/yield ops, a quarter of the readers' searches with a caller context that ends 1-100 microseconds into the search or has already ended (the single writer additionally installs snapshots: Save then Load of the bytes, as a replica's apply loop does while it serves reads) over a pool of 2-6 shared ids, every (id,version) with a unique vector, GOMAXPROCS in {2,4,16}, each program run 1-4 times; oracles: no new race report in the GORACE log while the program ran, no panic, no deadlock (20 s watchdog with index frames in the dump), per-id insert/remove/get outcomes linearizable as a set (porcupine), every search item corresponds to a version that may have been live during the search with exactly its score, and at quiescence Len == retrievable ids == stored vertices, structural invariants hold and searches satisfy C01's predicate, and after insert-only programs inside C07's exactness regime (n <= 2M+1, k = n) every stored item is returned; non-trivial = >=2 goroutines touch the same id and one of them writes it; distinct = distinct case JSON",
+		Rule: "rapid-generated concurrent programs on a fresh index.Hnsw (race-detector build): 1 writer (two thirds of the cases) or 2-6 writers plus 0-6 readers, each a list of 4-40 Insert/Remove/Get/Len/Search/yield ops, a quarter of the readers' searches with a caller context that ends 1-100 microseconds into the search or has already ended (the single writer additionally installs snapshots: Save then Load of the bytes, as a replica's apply loop does while it serves reads) over a pool of 2-6 shared ids (in one case of ten on top of 70-110 stored items that no goroutine touches), every (id,version) with a unique vector, GOMAXPROCS in {2,4,16}, each program run 1-4 times; oracles: no new race report in the GORACE log while the program ran, no panic, no deadlock (20 s watchdog with index frames in the dump), per-id insert/remove/get outcomes linearizable as a set (porcupine), every search item corresponds to a version that may have been live during the search with exactly its score, and at quiescence Len == retrievable ids == stored vertices, structural invariants hold and searches satisfy C01's predicate, and after insert-only programs inside C07's exactness regime (n <= 2M+1, k = n) every stored item is returned, and finally one goroutine can remove every stored item again (no lock was left behind); non-trivial = >=2 goroutines touch the same id and one of them writes it; distinct = distinct case JSON",
 		Gen:     genCase,
 		Check:   check,
 		Journal: true,
